@@ -1,0 +1,23 @@
+//go:build verif
+
+package idl
+
+import "go.uber.org/thriftrw/idl/internal"
+
+// Hooks for the external verification harness (build tag `verif` only): the
+// scanner and the literal / docstring helpers of idl/internal. No behaviour added.
+
+// VerifToken is one Lex() result with lex.Pos() after the call.
+type VerifToken = internal.VerifToken
+
+// VerifLexAll returns every Lex() result up to the first 0.
+func VerifLexAll(data []byte) []VerifToken { return internal.VerifLexAll(data) }
+
+// VerifUnquoteSingleQuoted is internal.UnquoteSingleQuoted.
+func VerifUnquoteSingleQuoted(in []byte) (string, error) { return internal.UnquoteSingleQuoted(in) }
+
+// VerifUnquoteDoubleQuoted is internal.UnquoteDoubleQuoted.
+func VerifUnquoteDoubleQuoted(in []byte) (string, error) { return internal.UnquoteDoubleQuoted(in) }
+
+// VerifParseDocstring is internal.ParseDocstring.
+func VerifParseDocstring(s string) string { return internal.ParseDocstring(s) }
